@@ -35,14 +35,15 @@ meta["history"] = history
 meta["verif_commit"] = subprocess.run("git -C /verif log -1 --format=%h", shell=True, capture_output=True, text=True).stdout.strip()
 shutil.copy(os.path.join(dst, "demo.rs"), f"{WT}/tests/seed_demo.rs")
 env = "CARGO_NET_OFFLINE=true"
-rc, o = sh(f"{env} cargo test --offline --features core,json --test seed_demo 2>&1 | tail -5", cwd=WT)
+FEATURES = os.environ.get("DEMO_FEATURES", "core,json")
+rc, o = sh(f"{env} cargo test --offline --features {FEATURES} --test seed_demo 2>&1 | tail -5", cwd=WT)
 meta["verified"]["demo_without_change"] = [l for l in o.splitlines() if l.startswith("test result")]
 rc, o = sh(f"git apply {dst}/patch.diff", cwd=WT)
 meta["verified"]["patch_applies"] = (rc == 0)
 if rc != 0:
     meta["verified"]["apply_error"] = o[-500:]
 else:
-    rc, o = sh(f"{env} cargo test --offline --features core,json --test seed_demo 2>&1 | tail -5", cwd=WT)
+    rc, o = sh(f"{env} cargo test --offline --features {FEATURES} --test seed_demo 2>&1 | tail -5", cwd=WT)
     meta["verified"]["demo_with_change"] = [l for l in o.splitlines() if l.startswith("test result")]
     os.remove(f"{WT}/tests/seed_demo.rs")
     rc, o = sh(f"{env} cargo test --workspace --no-fail-fast --offline 2>&1 | grep -E '^test result|FAILED'", cwd=WT)
@@ -54,6 +55,9 @@ ok = meta["verified"].get("patch_applies") and all(" 0 failed" in l for l in met
 meta["verified"]["confirmed"] = bool(ok)
 if ok:
     rc, o = sh(f"git -C /repo apply {dst}/patch.diff"); assert rc == 0, o
+    # evidence written while a change is applied must not replace the evidence of the clean tree
+    evidence_backup = "/var/tmp/evidence_backup_seed"
+    sh(f"rm -rf {evidence_backup} && cp -r /verif/evidence {evidence_backup}")
     try:
         for c in checks:
             t = time.time()
@@ -62,6 +66,7 @@ if ok:
                                  "violation": [l for l in o.splitlines() if l.startswith("VIOLATION")][:2]}
     finally:
         sh("git -C /repo checkout -- .")
+        sh(f"rm -rf /verif/evidence && mv {evidence_backup} /verif/evidence")
 meta["caught_by"] = [c for c, r in meta["checks"].items() if r["exit"] == 1]
 meta["what_ran"] = "demo without/with change and the pinned suite with the change in a scratch worktree of /repo HEAD; then `git -C /repo apply patch.diff`, `VERIF_SEED=0 ./check.sh <ID> quick` for the listed checks, `git -C /repo checkout -- .`"
 if os.path.exists(os.path.join(dst, "notes.md")):
